@@ -22,6 +22,47 @@ pub struct Case {
     pub rdatas: Vec<Rdata>,
     pub ttls: Vec<u32>,
     pub p: SigParams,
+    /// records that do NOT belong to the RRset (other class / owner / type), mixed into the
+    /// iterator handed to TBS::from_input / verify_rrsig; the signed data must ignore them
+    pub foreign: Vec<Foreign>,
+}
+
+/// A record outside the RRset. `pos` = index in the final record list at which it is inserted.
+#[derive(Clone, Debug)]
+pub struct Foreign {
+    pub pos: usize,
+    pub kind: String,
+    pub owner: Labels,
+    pub class: u16,
+    pub rtype: u16,
+    pub rdata: Rdata,
+    pub ttl: u32,
+}
+
+fn rdata_json(r: &Rdata) -> Value {
+    Value::Array(
+        r.iter()
+            .map(|f| match f {
+                Field::Bytes(b) => json!({"b": hex::enc(b)}),
+                Field::Name(n) => json!({"n": labels_json(n), "text": text(n)}),
+            })
+            .collect(),
+    )
+}
+fn rdata_from(r: &Value) -> Rdata {
+    r.as_array()
+        .map(|fs| {
+            fs.iter()
+                .map(|f| {
+                    if f.get("b").is_some() {
+                        Field::Bytes(hex::dec(f["b"].as_str().unwrap_or("")).unwrap_or_default())
+                    } else {
+                        Field::Name(labels_from(&f["n"]))
+                    }
+                })
+                .collect()
+        })
+        .unwrap_or_default()
 }
 
 fn labels_json(l: &Labels) -> Value {
@@ -55,6 +96,8 @@ impl Case {
             "owner": labels_json(&self.owner), "owner_text": text(&self.owner),
             "rec_owner": labels_json(&self.rec_owner), "class": self.class,
             "rdatas": rd, "ttls": self.ttls,
+            "foreign": self.foreign.iter().map(|f| json!({"pos": f.pos, "kind": f.kind, "owner": labels_json(&f.owner), "owner_text": text(&f.owner),
+                "class": f.class, "type_code": f.rtype, "rdata": rdata_json(&f.rdata), "ttl": f.ttl})).collect::<Vec<_>>(),
             "sig": {"algorithm": self.p.algorithm, "labels": self.p.labels, "original_ttl": self.p.original_ttl,
                 "expiration": self.p.expiration, "inception": self.p.inception, "key_tag": self.p.key_tag,
                 "signer": labels_json(&self.p.signer), "signer_text": text(&self.p.signer)},
@@ -91,6 +134,22 @@ impl Case {
             class: v["class"].as_u64().unwrap_or(1) as u16,
             rdatas,
             ttls: v["ttls"].as_array().map(|a| a.iter().map(|x| x.as_u64().unwrap_or(0) as u32).collect()).unwrap_or_default(),
+            foreign: v["foreign"]
+                .as_array()
+                .map(|a| {
+                    a.iter()
+                        .map(|f| Foreign {
+                            pos: f["pos"].as_u64().unwrap_or(0) as usize,
+                            kind: f["kind"].as_str().unwrap_or("?").to_string(),
+                            owner: labels_from(&f["owner"]),
+                            class: f["class"].as_u64().unwrap_or(1) as u16,
+                            rtype: f["type_code"].as_u64().unwrap_or(1) as u16,
+                            rdata: rdata_from(&f["rdata"]),
+                            ttl: f["ttl"].as_u64().unwrap_or(0) as u32,
+                        })
+                        .collect()
+                })
+                .unwrap_or_default(),
             p: SigParams {
                 type_covered: v["type_code"].as_u64().unwrap_or(1) as u16,
                 algorithm: s["algorithm"].as_u64().unwrap_or(15) as u8,
@@ -117,7 +176,7 @@ pub fn hrdata(rtype: u16, rd: &Rdata) -> Result<RData, String> {
 
 pub fn hrecords(c: &Case, rdatas: &[RData]) -> Vec<Record> {
     let name = hname(&c.rec_owner);
-    rdatas
+    let mut v: Vec<Record> = rdatas
         .iter()
         .zip(c.ttls.iter())
         .map(|(rd, ttl)| {
@@ -125,7 +184,18 @@ pub fn hrecords(c: &Case, rdatas: &[RData]) -> Vec<Record> {
             r.dns_class = DNSClass::from(c.class);
             r
         })
-        .collect()
+        .collect();
+    let mut fs: Vec<&Foreign> = c.foreign.iter().collect();
+    fs.sort_by_key(|f| f.pos);
+    for f in fs {
+        if let Ok(rd) = hrdata(f.rtype, &f.rdata) {
+            let mut r = Record::from_rdata(hname(&f.owner), f.ttl, rd);
+            r.dns_class = DNSClass::from(f.class);
+            let p = f.pos.min(v.len());
+            v.insert(p, r);
+        }
+    }
+    v
 }
 
 pub fn hinput(p: &SigParams) -> SigInput {
@@ -221,8 +291,13 @@ pub fn classify(c: &Case, want: &[u8], got: &[u8]) -> Vec<(String, String)> {
         }
     }
     let want_rd: Vec<&Vec<u8>> = cr.iter().map(|x| &x.rdata).collect();
+    let foreign_rd: Vec<(Vec<u8>, &str)> = c.foreign.iter().map(|f| (canon::rdata_canonical(f.rtype, &f.rdata), f.kind.as_str())).collect();
     for x in &ch {
         if !want_rd.contains(&&x.rdata) {
+            if let Some((_, kind)) = foreign_rd.iter().find(|(rd, _)| *rd == x.rdata) {
+                add(&mut keys, format!("tbs-filter:foreign-{kind}-record-included"), format!("a record outside the RRset ({kind}) is part of the signed data"));
+                continue;
+            }
             let kind = match want_rd.iter().find(|w| w.eq_ignore_ascii_case(&x.rdata)) {
                 Some(w) => {
                     if w.iter().zip(x.rdata.iter()).any(|(a, b)| a != b && b.is_ascii_uppercase()) {
@@ -349,8 +424,11 @@ pub fn run_tbs_case(c: &Case, hr: &[RData], l: &mut Local) -> Verdict {
                 if (c.p.labels as usize) < c.owner.len() {
                     l.outcome("tbs:equal:wildcard-reduced-owner");
                 }
-                if reordered || (names && c.rdatas.len() >= 2) {
-                    l.nontrivial(fnv64(&w) ^ fnv64(format!("{:?}{:?}{:?}", c.ttls, c.rec_owner, c.rdatas).as_bytes()));
+                if !c.foreign.is_empty() {
+                    l.outcome("tbs:equal:foreign-records-ignored");
+                }
+                if reordered || (names && c.rdatas.len() >= 2) || !c.foreign.is_empty() {
+                    l.nontrivial(fnv64(&w) ^ fnv64(format!("{:?}{:?}{:?}{:?}", c.ttls, c.rec_owner, c.rdatas, c.foreign).as_bytes()));
                 }
                 Verdict::Equal(w)
             } else {
